@@ -509,7 +509,7 @@ func checkShard(propV, tierV, shard string) *checkAcc {
 				go func(i int, q string) {
 					defer wg.Done()
 					defer func() { <-sem }()
-					c := solveReqDo("", solveReq{Query: q, TimeoutMs: 60000, Second: true})
+					c := solveReqDo("", solveReq{Query: q, TimeoutMs: 20000, Second: true})
 					mu.Lock()
 					confirm[i] = c
 					mu.Unlock()
